@@ -25,8 +25,11 @@ DefaultCx == [native |-> {}, omit_none |-> "unset", by_alias |-> "unset", dlct |
 \* a strategy table is a sequence of << keyTerm, strategy >>; keys: a NewType term, an exact type
 \* term, or <<"origin", tag>> for the generic origin of a parametrised type
 Supplies(st, dir) == st[1] = "pass_through" \/ st[3] = "both" \/ st[3] = dir
+\* (an Annotated alias <<"annotated", X, marker>> is the most specific key of a position annotated with it, then X's own keys)
+RECURSIVE TypeKeys(_)
 TypeKeys(T) ==
-  IF T[1] = "newtype" THEN << T >>
+  IF T[1] = "annotated" /\ Len(T) >= 3 THEN << T >> \o TypeKeys(T[2])
+  ELSE IF T[1] = "newtype" THEN << T >>
   ELSE IF T[1] \in {"list", "set", "frozenset", "deque", "dict", "odict", "ddict", "counter", "chainmap", "vtuple", "tuple",
                     "seq", "mseq", "aset", "mapping", "mmapping", "mproxy"}
        THEN << T, <<"origin", T[1]>> >>
